@@ -388,7 +388,7 @@ def getitem (o k : CV) : R :=
           | Option.none => unm
       | some false => .error .typeError
       | Option.none => unm
-  | .obj _ _ | .none | .int _ | .bool _ | .builtin _ | .clo .. | .gen _ => .error .typeError
+  | .obj _ _ | .none | .int _ | .bool _ | .clo .. | .gen _ => .error .typeError
   | .undef _ => .error .undefinedError
   | _ => unm
 
@@ -545,11 +545,11 @@ def callBuiltin (name : Str) (pos : List CV) (kws : List (Str × CV)) : R :=
   else if name = cs!"range" then
     match pos with
     | [a] => match num? a with
-        | some x => .ok (.range 0 (if x < 0 then 0 else x))
+        | some x => .ok (.range 0 x)
         | Option.none => if isStrV a || (match a with | .none | .list _ | .tuple _ | .dict _ _ => true | _ => false)
             then .error .typeError else unm
     | [a, b] => match num? a, num? b with
-        | some x, some y => .ok (.range x (if y < x then x else y))
+        | some x, some y => .ok (.range x y)
         | _, _ => unm
     | [] => .error .typeError
     | _ => unm
@@ -615,6 +615,10 @@ def sem0 : Sem CV CE where
   mkDict := mkDict
   mkSlice := .slice
   iter := iter
+  getIter := fun v => match v with
+    | .tuple _ | .list _ | .str _ | .dict _ _ | .range _ _ | .gen _ | .undef _ => .ok v
+    | .bad | .bound _ _ => unm
+    | _ => .error .typeError
   bindTarget := bindTarget
   mkFun := fun _ _ _ _ _ _ => .bad
   mkGen := .gen
@@ -767,8 +771,9 @@ def evalD : PyExpr → Env V → Except E V
       match gens with
       | .comp t it ifs _ :: rest => do
           let itV ← evalD it env
+          let itr ← σ.getIter itV
           .ok (σ.mkGen (do
-            let items ← σ.iter itV
+            let items ← σ.iter itr
             runFromD t ifs rest items (declare (compNames gens) env) elt))
       | _ => .error (σ.unbound [])
   | .yield_ v, env => do
@@ -840,6 +845,7 @@ def evalArgsD : List PyExpr → Env V → Except E (List (Bool × V))
   | [], _ => .ok []
   | .starred e :: rest, env => do
       let x ← evalD e env
+      let x ← σ.getIter x
       let xs ← evalArgsD rest env
       .ok ((true, x) :: xs)
   | e :: rest, env => do
